@@ -221,6 +221,114 @@ def model_streams(chk, count=None, mutate=False):
     return res
 
 
+class _Bits:
+    def __init__(self):
+        self.bits = []
+
+    def put(self, n, v):
+        v &= (1 << n) - 1
+        self.bits.extend((v >> i) & 1 for i in range(n - 1, -1, -1))
+
+    def unary_rice(self, k, r):
+        u = 2 * r if r >= 0 else -2 * r - 1
+        self.bits.extend([0] * (u >> k))
+        self.bits.append(1)
+        if k:
+            self.put(k, u & ((1 << k) - 1))
+
+    def align(self):
+        while len(self.bits) % 8:
+            self.bits.append(0)
+
+    def bytes(self):
+        assert len(self.bits) % 8 == 0
+        return bytes(int("".join(map(str, self.bits[i:i + 8])), 2) for i in range(0, len(self.bits), 8))
+
+
+def _crc(data, width, poly):
+    c, top, mask = 0, 1 << (width - 1), (1 << width) - 1
+    for b in data:
+        c ^= b << (width - 8)
+        for _ in range(8):
+            c = ((c << 1) ^ poly) & mask if c & top else (c << 1) & mask
+    return c
+
+
+def short_partition_streams(seed, count):
+    """Hand-built (byte-level, outside what the model's frame tree can express) checksum-valid files of
+    one mono frame whose FIXED/LPC subframe announces a partition order with
+    (block size >> partition order) <= predictor order — RFC 9639 9.2.7 requires it to be larger.
+    Two serialisations each: only the partitions that still hold residuals are present, or all 2^po are
+    (the leading ones empty).  Decoder and model must both reject every one."""
+    import random
+    rng = random.Random(seed * 7919 + 5)
+    out = []
+    for n in range(count):
+        lpc = rng.random() < 0.4
+        order = rng.choice([1, 2, 3, 4]) if not lpc else rng.choice([1, 2, 3, 4, 5, 8, 12, 16, 32])
+        po = rng.randrange(0, 7)
+        while (order << po) < 16 or (order << po) > 4096:
+            po = rng.randrange(0, 9)
+        bs = order << po
+        # equal (the boundary) most of the time; sometimes a strictly smaller partition size
+        if rng.random() < 0.25 and po < 8 and bs % (1 << (po + 1)) == 0:
+            po += 1
+        psize = bs >> po
+        bps = rng.choice([8, 12, 16, 24])
+        wasted = rng.choice([0, 0, 0, 1, 2])
+        full = rng.random() < 0.5
+        b = _Bits()
+        b.put(14, 0b11111111111110); b.put(1, 0); b.put(1, 0)
+        b.put(4, 0b0110 if bs <= 256 else 0b0111)
+        b.put(4, 0b1001)
+        b.put(4, 0)
+        b.put(3, {8: 1, 12: 2, 16: 4, 24: 6}[bps]); b.put(1, 0)
+        b.put(8, 0)
+        b.put(8 if bs <= 256 else 16, bs - 1)
+        b.put(8, _crc(b.bytes(), 8, 0x07))
+        b.put(1, 0)
+        b.put(6, (0b001000 + order) if not lpc else (31 + order))
+        if wasted:
+            b.put(1, 1); b.put(wasted, 1)
+        else:
+            b.put(1, 0)
+        for _ in range(order):
+            b.put(bps - wasted, rng.randrange(-4, 5))
+        if lpc:
+            prec = rng.choice([2, 3, 5])
+            b.put(4, prec - 1); b.put(5, rng.randrange(0, 3))
+            for _ in range(order):
+                b.put(prec, rng.randrange(-1, 2))
+        esc5 = rng.random() < 0.3
+        b.put(2, 1 if esc5 else 0)
+        b.put(4, po)
+        nres = bs - order
+        sizes = []
+        rest = nres
+        while rest > 0:
+            sizes.append(min(psize, rest)); rest -= psize
+        sizes.reverse()
+        if full:
+            sizes = [0] * ((1 << po) - len(sizes)) + sizes
+        for sz in sizes:
+            k = rng.randrange(0, 3)
+            b.put(5 if esc5 else 4, k)
+            for _ in range(sz):
+                b.unary_rice(k, rng.randrange(-2, 3))
+        b.align()
+        fr = b.bytes()
+        fr += _crc(fr, 16, 0x8005).to_bytes(2, "big")
+        h = _Bits()
+        for c in b"fLaC":
+            h.put(8, c)
+        h.put(1, 1); h.put(7, 0); h.put(24, 34)
+        h.put(16, bs); h.put(16, bs); h.put(24, 0); h.put(24, 0)
+        h.put(20, 44100); h.put(3, 0); h.put(5, bps - 1); h.put(36, bs); h.put(128, 0)
+        out.append({"id": "dec_stream-hb-%d" % n, "bytes": (h.bytes() + fr).hex(), "kind": "dec_stream", "md5": "",
+                    "mutation": "partition-size-not-above-order:" + ("lpc" if lpc else "fixed") + (":all-partitions" if full else ":short")})
+    return out
+
+
 def run_mutants(chk, profiles=("release",), count=None):
     """Checksum-valid MALFORMED streams: a valid tree from the generator with one field pushed to a
     reserved / illegal value (negative LPC shift, precision 16, reserved FIXED order, coding method 2-3,
@@ -229,6 +337,8 @@ def run_mutants(chk, profiles=("release",), count=None):
     model decoder must agree on every one; a frame the model rejects and the implementation decodes
     silently is reported as must-reject-accepted:<mutation>.  Returns a stats dict."""
     muts = model_streams(chk, count=count or (600 if chk.tier == "thorough" else 160), mutate=True)
+    if muts:
+        muts.extend(short_partition_streams(chk.seed, 240 if chk.tier == "thorough" else 60))
     stats = {"inputs": len(muts), "by_mutation": {}, "disagreements": 0, "model_rejects": 0}
     if not muts:
         return stats
